@@ -286,8 +286,9 @@ def parse_blocks(text):
             hid, cur = None, None
         elif cur is not None:
             cur.append(line)
-        elif line.startswith("HANG"):
-            blocks["__hang__"] = [line]
+    if hid is not None and cur is not None:
+        # the process stopped inside this history: keep what it printed, marked
+        blocks[hid] = cur + ["<stopped: hang or crash>"]
     return blocks
 
 
@@ -312,8 +313,10 @@ def run_model(hist_text):
     return rc, out
 
 
-def run_impl(hist_text, par=None, timeout=600):
+def run_impl(hist_text, par=None, timeout=600, fast=False):
     env = dict(ENV)
+    if fast:
+        env["KV_WATCHDOG_MS"] = "40"
     if par:
         env["KV_PARALLELISM"] = str(par)
     try:
@@ -328,12 +331,15 @@ def one_history_text(head, labels):
     return head + "\n" + "\n".join(labels) + "\nE\n"
 
 
-def compare_one(head, labels):
+def compare_one(head, labels, fast=True):
     """returns None if model and implementation agree on this history, else
     (index of first differing line or -1 for crash/hang, model lines, impl lines)"""
     txt = one_history_text(head, labels)
     rc_m, out_m = run_model(txt)
-    rc_i, out_i = run_impl(txt, timeout=20)
+    rc_i, out_i = run_impl(txt, timeout=20, fast=fast)
+    if rc_i != 0 and fast:
+        # a stop under the short watchdog is confirmed with the standard one
+        rc_i, out_i = run_impl(txt, timeout=20, fast=False)
     hid = head.split()[1]
     bm = parse_blocks(out_m).get(hid)
     bi = parse_blocks(out_i).get(hid)
@@ -341,8 +347,8 @@ def compare_one(head, labels):
         return ("model-error", [], [])
     if any(l.split(" ")[0] in ("invalid", "hang", "blocked") for l in bm[:-1]):
         return "illegal"
-    if bi is None or rc_i != 0:
-        return (-1, bm, bi or ["<crash/hang rc=%s>" % rc_i])
+    if bi is None:
+        return (-1, bm, ["<crash/hang rc=%s>" % rc_i])
     for i, (a, c) in enumerate(zip(bm, bi)):
         if a != c:
             return (i, bm, bi)
@@ -406,11 +412,17 @@ def h1_suite(seed, count, maxlen, shards=8, extra_hist=None):
                                             stderr=subprocess.DEVNULL, text=True, env=ENV), hf, ef))
     for p, hf, ef in impl_procs:
         try:
-            out, _ = p.communicate(timeout=600)
+            out, _ = p.communicate(timeout=180)
         except subprocess.TimeoutExpired:
             p.kill()
             out, _ = p.communicate()
         got = parse_blocks(out)
+        hung = None
+        if p.returncode != 0:
+            # the harness stopped (hang watchdog, abort, segfault) inside the last history it announced
+            hs = re.findall(r"^H (\S+)$", out, re.M)
+            hung = hs[-1] if hs else None
+            stats["impl_stopped"] = stats.get("impl_stopped", 0) + 1
         exp = parse_blocks(open(ef).read())
         for head, labels in parse_hist(open(hf).read()):
             f = head.split()
@@ -422,6 +434,10 @@ def h1_suite(seed, count, maxlen, shards=8, extra_hist=None):
             lb = str(min(len(labels) // 8 * 8, 40))
             stats["lengths"][lb] = stats["lengths"].get(lb, 0) + 1
             e, g = exp.get(hid), got.get(hid)
+            if hung is not None and g is None and hid != hung:
+                # never run because the process stopped earlier: not a divergence of this history
+                stats["not_run"] = stats.get("not_run", 0) + 1
+                continue
             for l in labels:
                 k = l.split()[0]
                 stats["kinds"][k] = stats["kinds"].get(k, 0) + 1
